@@ -5,7 +5,10 @@
 //     of the list, or to the next clause with a test and at last to the default clause);
 //   - run.go `genFunctionWrapper`: what each arm of the receiver binding does with the receiver
 //     slot of the new frame (`dest.Set(x)` or `d[numRet] = x`);
-//   - type.go `lookupField`: whether the loop over the fields tests `f.embed`;
+//   - type.go `lookupField`: whether the loop over the fields skips fields that are not embedded, and
+//     which embedded field wins (first hit depth first / shortest path); the same for `lookupMethod2`;
+//     cfg.go `matchSelectorMethod`: whether several methods at the depth found are an ambiguous selector;
+//   - value.go `genValueInterface`: whether an addressable value is copied before it is wrapped;
 //   - type.go `methodSet.contains`: whether only the presence of the name is tested;
 //   - cfg.go `case selectorExpr`: the two conditions comparing `methodDepth` with the length of the
 //     field path;
@@ -155,25 +158,94 @@ func main() {
 			unrec = append(unrec, "cfg.go: post-order case switchStmt (clause chaining) not found")
 		}
 
-		// 2. lookupField loop
+		// 2. lookupField: the loop over the fields (embedded only?) and which field wins;
+		//    lookupMethod2: which embedded field wins; matchSelectorMethod: the methodCount test
+		pickOf := func(fd *ast.FuncDecl, what, rangeX, init, condFirst, condBest, assignBest string) (string, *ast.RangeStmt) {
+			pick := "unknown"
+			var loop *ast.RangeStmt
+			ast.Inspect(fd, func(n ast.Node) bool {
+				rs, ok := n.(*ast.RangeStmt)
+				if !ok || text(rs.X) != rangeX || loop != nil {
+					return true
+				}
+				loop = rs
+				ast.Inspect(rs.Body, func(m ast.Node) bool {
+					is, ok := m.(*ast.IfStmt)
+					if !ok || is.Init == nil || text(is.Init) != init {
+						return true
+					}
+					body := text(is.Body)
+					switch {
+					case text(is.Cond) == condFirst && strings.Contains(body, "return "):
+						pick = "firstDfs"
+					case text(is.Cond) == condBest && body == "{ "+assignBest+" }":
+						pick = "shallowest"
+					default:
+						unrec = append(unrec, what+": "+text(is.Cond)+" => "+body)
+					}
+					return false
+				})
+				return false
+			})
+			if loop == nil {
+				unrec = append(unrec, what+": loop over "+rangeX+" not found")
+			}
+			return pick, loop
+		}
 		embedOnly := false
+		fieldPick := "unknown"
 		if fd := common.FindFunc(ft, "itype", "lookupField"); fd == nil {
 			unrec = append(unrec, "type.go: lookupField not found")
 		} else {
-			seen := false
+			var loop *ast.RangeStmt
+			fieldPick, loop = pickOf(fd, "type.go lookupField", "typ.field", "index2 := lookup(f.typ)",
+				"len(index2) > 0", "len(index2) > 0 && (index == nil || len(index2) < len(index)-1)", "index = append([]int{i}, index2...)")
+			if loop != nil && len(loop.Body.List) > 0 {
+				switch first := text(loop.Body.List[0]); {
+				case first == "if !f.embed { continue }":
+					embedOnly = true
+				case strings.Contains(text(loop.Body), ".embed"):
+					unrec = append(unrec, "type.go lookupField: test of f.embed: "+first)
+				}
+			}
+			if fieldPick == "shallowest" && !contains(fd, "return index }") {
+				unrec = append(unrec, "type.go lookupField: the selected index is not returned")
+			}
+		}
+		methodPick := "unknown"
+		if fd := common.FindFunc(ft, "itype", "lookupMethod2"); fd == nil {
+			unrec = append(unrec, "type.go: lookupMethod2 not found")
+		} else {
+			var loop *ast.RangeStmt
+			methodPick, loop = pickOf(fd, "type.go lookupMethod2", "t.field", "n, index2 := f.typ.lookupMethod2(name, seen)",
+				"n != nil", "n != nil && (m == nil || len(index2) < len(index)-1)", "m, index = n, append([]int{i}, index2...)")
+			if loop != nil && text(loop.Body) != "{ if f.embed { "+text(loop.Body.List[0].(*ast.IfStmt).Body.List[0])+" } }" {
+				unrec = append(unrec, "type.go lookupMethod2: loop body: "+text(loop.Body))
+			}
+			if methodPick == "shallowest" && !contains(fd, "if m != nil { return m, index }") {
+				unrec = append(unrec, "type.go lookupMethod2: the selected method is not returned")
+			}
+		}
+		ambCheck := false
+		if fd := common.FindFunc(fc, "", "matchSelectorMethod"); fd == nil {
+			unrec = append(unrec, "cfg.go: matchSelectorMethod not found")
+		} else {
 			ast.Inspect(fd, func(n ast.Node) bool {
-				rs, ok := n.(*ast.RangeStmt)
-				if ok && text(rs.X) == "typ.field" {
-					seen = true
-					if contains(rs.Body, ".embed") {
-						embedOnly = true
+				is, ok := n.(*ast.IfStmt)
+				if !ok || is.Init == nil || text(is.Init) != "m, lind := n.typ.lookupMethod(name)" {
+					return true
+				}
+				if len(is.Body.List) > 0 {
+					if c, ok := is.Body.List[0].(*ast.IfStmt); ok && strings.Contains(text(c.Cond), "methodCount") {
+						if text(c.Cond) == "n.typ.methodCount(name, len(lind)) > 1" && text(c.Body) == `{ return n.cfgErrorf("ambiguous selector: %s", name) }` {
+							ambCheck = true
+						} else {
+							unrec = append(unrec, "cfg.go matchSelectorMethod: "+text(c.Cond)+" => "+text(c.Body))
+						}
 					}
 				}
-				return true
+				return false
 			})
-			if !seen {
-				unrec = append(unrec, "type.go lookupField: loop over typ.field not found")
-			}
 		}
 
 		// 3. contains
@@ -226,12 +298,48 @@ func main() {
 			unrec = append(unrec, "cfg.go: case selectorExpr with lookupField/methodDepth not found")
 		}
 
-		// 5. genFunctionWrapper: the receiver binding
-		bind := map[string]string{"ptrToVal": "unknown", "valToPtr": "unknown", "same": "unknown"}
+		depthMinus := 0
+		switch {
+		case methodWins == "d >= 0 && d < len(ti) => { goto tryMethods }" && ambiguous == "d == len(ti)":
+			depthMinus = 0
+		case methodWins == "d >= 0 && d < len(ti)-1 => { goto tryMethods }" && ambiguous == "d == len(ti)-1":
+			depthMinus = 1
+		default:
+			unrec = append(unrec, "cfg.go case selectorExpr: depth comparisons: "+methodWins+" | "+ambiguous)
+		}
+		if selectorCase != nil {
+			// the branch of lookupBinField repeats the two comparisons on `lind`
+			t := text(selectorCase)
+			k := ""
+			if depthMinus == 1 {
+				k = "-1"
+			}
+			if !strings.Contains(t, "d < len(lind)"+k+" {") || !strings.Contains(t, "d == len(lind)"+k+" {") {
+				unrec = append(unrec, "cfg.go case selectorExpr: the comparisons on lind differ from those on ti")
+			}
+		}
+
+		// 5. genFunctionWrapper: the receiver binding. Two shapes are recognised:
+		//    since 3081633: the switch stands outside the reflect.MakeFunc callback and assigns `recv`
+		//    (`recv = copyDeferArg(x)` copy, `recv = x` x itself), the callback does `d[numRet].Set(recv)`
+		//    (copy) or `d[numRet] = recv`; before: the switch stands in the callback and writes the slot
+		//    (`dest.Set(x)` copy, `d[numRet] = x` x itself).
+		bind := map[string]string{"ptrToVal": "unknown", "valToPtr": "unknown", "same": "unknown", "call": "unknown"}
+		atCreation := false
 		recvHash := "unrecognised: receiver binding not found"
 		if fd := common.FindFunc(fr, "", "genFunctionWrapper"); fd == nil {
 			unrec = append(unrec, "run.go: genFunctionWrapper not found")
 		} else {
+			// the callback: the function literal passed to reflect.MakeFunc
+			var callback *ast.FuncLit
+			ast.Inspect(fd, func(n ast.Node) bool {
+				if ce, ok := n.(*ast.CallExpr); ok && text(ce.Fun) == "reflect.MakeFunc" && len(ce.Args) == 2 {
+					if fl, ok := ce.Args[1].(*ast.FuncLit); ok && callback == nil {
+						callback = fl
+					}
+				}
+				return true
+			})
 			found := false
 			ast.Inspect(fd, func(n ast.Node) bool {
 				sw, ok := n.(*ast.SwitchStmt)
@@ -248,6 +356,8 @@ func main() {
 					return true
 				}
 				found = true
+				inCallback := callback != nil && sw.Pos() >= callback.Pos() && sw.End() <= callback.End()
+				atCreation = !inCallback
 				recvHash = fmt.Sprintf("%x", sha256.Sum256([]byte(text(sw))))[:16]
 				for _, st := range sw.Body.List {
 					cc := st.(*ast.CaseClause)
@@ -267,10 +377,10 @@ func main() {
 					for _, b := range cc.Body {
 						body += text(b) + ";"
 					}
-					switch body {
-					case "dest.Set(" + operand + ");":
+					switch {
+					case inCallback && body == "dest.Set("+operand+");", !inCallback && body == "recv = copyDeferArg("+operand+");":
 						bind[arm] = "set"
-					case "d[numRet] = " + operand + ";":
+					case inCallback && body == "d[numRet] = "+operand+";", !inCallback && body == "recv = "+operand+";":
 						bind[arm] = "slot"
 					default:
 						unrec = append(unrec, "receiver binding, arm "+arm+": "+body)
@@ -278,15 +388,51 @@ func main() {
 				}
 				return true
 			})
-			if !found {
+			switch {
+			case !found:
 				unrec = append(unrec, "run.go genFunctionWrapper: switch on sk / dk not found")
-			} else if !contains(fd, "src, dest := rcvr(f), d[numRet]") || !contains(fd, "sk, dk := src.Kind(), dest.Kind()") {
-				unrec = append(unrec, "run.go genFunctionWrapper: src / dest / sk / dk are not bound as expected")
+			case callback == nil:
+				unrec = append(unrec, "run.go genFunctionWrapper: reflect.MakeFunc callback not found")
+			case !atCreation:
+				bind["call"] = "slot"
+				if !contains(fd, "src, dest := rcvr(f), d[numRet]") || !contains(fd, "sk, dk := src.Kind(), dest.Kind()") {
+					unrec = append(unrec, "run.go genFunctionWrapper: src / dest / sk / dk are not bound as expected")
+				}
+			default:
+				if !contains(fd, "src := rcvr(f)") || !contains(fd, "sk, dk := src.Kind(), def.types[numRet].Kind()") {
+					unrec = append(unrec, "run.go genFunctionWrapper: src / sk / dk are not bound as expected")
+				}
+				switch {
+				case contains(callback, "d[numRet].Set(recv)") && !contains(callback, "d[numRet] = recv"):
+					bind["call"] = "set"
+				case contains(callback, "d[numRet] = recv") && !contains(callback, "d[numRet].Set(recv)"):
+					bind["call"] = "slot"
+				default:
+					unrec = append(unrec, "run.go genFunctionWrapper: the callback does not fill d[numRet] from recv as expected")
+				}
 			}
 		}
 
+		// 6. genValueInterface: is an addressable value copied before it is wrapped
+		ifaceCopies := false
+		if fd := common.FindFunc(fv, "", "genValueInterface"); fd == nil {
+			unrec = append(unrec, "value.go: genValueInterface not found")
+		} else {
+			ast.Inspect(fd, func(n ast.Node) bool {
+				is, ok := n.(*ast.IfStmt)
+				if ok && strings.Contains(text(is.Cond), "CanAddr") {
+					if text(is.Cond) == "v.IsValid() && v.CanAddr()" && text(is.Body) == "{ c := reflect.New(v.Type()).Elem() c.Set(v) v = c }" {
+						ifaceCopies = true
+					} else {
+						unrec = append(unrec, "value.go genValueInterface: "+text(is.Cond)+" => "+text(is.Body))
+					}
+				}
+				return true
+			})
+		}
+
 		hT := common.HashTable(fsT, ft, [][2]string{{"itype", "lookupField"}, {"itype", "fieldIndex"}, {"itype", "lookupMethod"}, {"itype", "lookupMethod2"},
-			{"itype", "getMethod"}, {"itype", "methodDepth"}, {"itype", "methods"}, {"methodSet", "contains"}, {"itype", "implements"}, {"", "lookupFieldOrMethod"}})
+			{"itype", "getMethod"}, {"itype", "methodDepth"}, {"itype", "methodCount"}, {"itype", "methods"}, {"methodSet", "contains"}, {"itype", "implements"}, {"", "lookupFieldOrMethod"}})
 		hC := common.HashTable(fsC, fc, [][2]string{{"", "matchSelectorMethod"}, {"", "getDefault"}})
 		hR := common.HashTable(fsR, fr, [][2]string{{"", "typeAssert"}, {"", "_case"}, {"", "implementsInterface"}, {"", "canAssertTypes"},
 			{"", "getMethod"}, {"", "getMethodByName"}, {"", "lookupMethodValue"}, {"", "stripReceiverFromArgs"}, {"", "genFunctionWrapper"}})
@@ -299,11 +445,16 @@ open YaegiVerif.Method
 def facts : Facts :=
   { defaultSwap := %v,
     clauseChain := .%s,
+    methodPick := .%s,
+    methodAmbiguityCheck := %v,
     fieldLoopEmbedOnly := %v,
+    fieldPick := .%s,
     containsNamesOnly := %v,
     methodWinsCond := %s,
     ambiguousCond := %s,
-    recvBind := { ptrToVal := .%s, valToPtr := .%s, same := .%s } }
+    fieldDepthMinus := %d,
+    recvBind := { atCreation := %v, ptrToVal := .%s, valToPtr := .%s, same := .%s, call := .%s },
+    ifaceCopies := %v }
 /-- constructs the extractor no longer recognises -/
 def unrecognised : List String := %s
 /-- fingerprints of the transcribed functions, of three cases of cfg.go and of the receiver binding -/
@@ -318,7 +469,8 @@ def sourceHashes : List (String × String) :=
    ("cfg.go post-order case switchStmt", %s),
    ("genFunctionWrapper receiver binding", %s)]
 end YaegiVerif.Generated.C05
-`, defaultSwap, clauseChain, embedOnly, namesOnly, common.LeanStr(methodWins), common.LeanStr(ambiguous), bind["ptrToVal"], bind["valToPtr"], bind["same"],
+`, defaultSwap, clauseChain, methodPick, ambCheck, embedOnly, fieldPick, namesOnly, common.LeanStr(methodWins), common.LeanStr(ambiguous), depthMinus,
+			atCreation, bind["ptrToVal"], bind["valToPtr"], bind["same"], bind["call"], ifaceCopies,
 			common.LeanStrList(unrec), hT, hC, hR, hK, hV, common.LeanStr(selHash), common.LeanStr(preHash), common.LeanStr(postHash), common.LeanStr(recvHash)), nil
 	})
 }
